@@ -896,7 +896,7 @@ func checkSidWorker(c *engine.Ctx, rule string) {
 		return
 	}
 	n := 0
-	for _, af := range run.AnonFuncs {
+	for _, af := range allFuncsOfPkg(run.Pkg) {
 		var sel *ssa.Select
 		closeIdx := -1
 		engine.ForEachInstr(af, func(in ssa.Instruction) {
@@ -908,7 +908,7 @@ func checkSidWorker(c *engine.Ctx, rule string) {
 				}
 			}
 		})
-		if sel == nil {
+		if sel == nil || len(sel.States) < 2 {
 			continue
 		}
 		n++
